@@ -557,13 +557,6 @@ Section SortU.
   Definition ssorted (l : list A) : Prop :=
     StronglySorted (fun x y => str_ltb (key x) (key y) = true) l.
 
-  Lemma ssorted_sort_id l : ssorted l -> sort_by key str_ltb l = l.
-  Proof.
-    unfold sort_by. induction 1 as [|x l Hl IH Hx]; cbn [fold_right]; [reflexivity|].
-    rewrite IH. destruct l as [|y ys]; cbn [insert]; [reflexivity|].
-    inversion Hx as [|y' ys' Hxy _]; subst. rewrite Hxy. reflexivity.
-  Qed.
-
   Lemma insert_ssorted x l :
     ssorted l -> ~ In (key x) (map key l) -> ssorted (insert key str_ltb x l).
   Proof.
@@ -585,7 +578,9 @@ Section SortU.
 
   Lemma sort_by_ssorted l : NoDup (map key l) -> ssorted (sort_by key str_ltb l).
   Proof.
-    unfold sort_by. induction l as [|x l IH]; intros Hnd; cbn [fold_right]; [constructor|].
+    induction l as [|x l IH] using rev_ind; intros Hnd; [constructor|].
+    rewrite sort_by_snoc. rewrite map_app in Hnd. cbn [map] in Hnd.
+    apply (Permutation_NoDup (Permutation_sym (Permutation_cons_append (map key l) (key x)))) in Hnd.
     inversion Hnd as [|k ks Hnin Hnd']; subst.
     apply insert_ssorted; [apply IH; exact Hnd'|].
     intro Hin. apply Hnin.
@@ -626,6 +621,9 @@ Section SortU.
     - eapply perm_trans; [apply sort_by_perm|exact HP].
   Qed.
 
+  Lemma ssorted_sort_id l : ssorted l -> sort_by key str_ltb l = l.
+  Proof. intros Hs. apply sort_by_unique; [exact Hs|apply Permutation_refl]. Qed.
+
   Lemma ssorted_filter p l : ssorted l -> ssorted (filter p l).
   Proof.
     induction 1 as [|x l Hl IH Hx]; cbn [filter]; [constructor|].
@@ -654,8 +652,8 @@ Lemma sort_by_map {A B} (key : A -> string) (key' : B -> string) (g : A -> B) l 
   (forall x, key' (g x) = key x) ->
   sort_by key' str_ltb (map g l) = map g (sort_by key str_ltb l).
 Proof.
-  intros Hk. unfold sort_by. induction l as [|x l IH]; cbn [map fold_right]; [reflexivity|].
-  rewrite IH. apply insert_map. exact Hk.
+  intros Hk. induction l as [|x l IH] using rev_ind; [reflexivity|].
+  rewrite map_app. cbn [map]. rewrite !sort_by_snoc, IH. apply insert_map. exact Hk.
 Qed.
 
 Lemma Permutation_filter' {A} (p : A -> bool) l1 l2 :
@@ -2169,10 +2167,10 @@ Module GlencoeExamples.
   Example rt1 : rt_same (rt m1). Proof. vm_compute. reflexivity. Qed.
   Example rt2 : rt_same (rt m2). Proof. vm_compute. reflexivity. Qed.
   Example rt3 : rt_same (rt m3). Proof. vm_compute. reflexivity. Qed.
-  (* [sort_by] puts an element after the elements with an equal key that followed it: runs of equal
-     keys are reversed, so the sort is not stable (it is on lists with pairwise distinct keys) *)
-  Example sort_by_not_stable :
-    sort_by fst str_ltb [("a"%string, 1%nat); ("a"%string, 2%nat)] = [("a"%string, 2%nat); ("a"%string, 1%nat)].
+  (* [sort_by] puts an element after the earlier elements with an equal key: the sort is stable, as Python's sorted() is *)
+  Example sort_by_stable :
+    sort_by fst str_ltb [("b"%string, 0%nat); ("a"%string, 1%nat); ("b"%string, 3%nat); ("a"%string, 2%nat)]
+    = [("a"%string, 1%nat); ("a"%string, 2%nat); ("b"%string, 0%nat); ("b"%string, 3%nat)].
   Proof. vm_compute. reflexivity. Qed.
 End GlencoeExamples.
 
